@@ -14,7 +14,7 @@ from rtmon import dtlib
 LEVEL = 'exploration'
 RULE = ('all 1440 HH:MM (x 3 carriers), HH:MM:SS stratified (every hour x minutes step 7 x seconds {0,1,30,59} + seeded), 12-hour '
         'spellings h and h:mm x {am, pm, a.m., p.m., " am", " pm", AM, PM, none}, h o\'clock, composed with date expressions '
-        '(ISO, m/d/yyyy, Month d yyyy, tomorrow, yesterday, today) as "<date> at <time>", random references. non-trivial = one '
+        '(ISO, m/d/yyyy, Month d yyyy, tomorrow, yesterday, today) as "<date> at <time>", random references (en-us); bare 24-hour HH:MM in the 8 other cultures. non-trivial = one '
         'resolved time/datetime entity returned; distinct = distinct (query, reference date).')
 EXHAUSTIVE = False
 JOB_TIMEOUT = 1200
@@ -48,10 +48,10 @@ def readings(h, m, s, ap, has_m=True, has_s=False):
     return [(tv(a, m, s), tx(a, m, s, has_m, has_s)), (tv(b, m, s), tx(b, m, s, has_m, has_s))]
 
 
-def check(m, q, expr, ref, want, typ, ctx, cls, datepart=None):
+def check(m, q, expr, ref, want, typ, ctx, cls, datepart=None, culture='en-us'):
     """want: list of (value, timex) readings for the time; datepart: ISO date for composed forms"""
     from rtmon import lib
-    where = {'model': 'DateTimeModel', 'culture': 'en-us', 'cls': cls}
+    where = {'model': 'DateTimeModel', 'culture': culture, 'cls': cls}
     st = q.index(expr)
     en = st + len(expr) - 1
     if datepart:
@@ -61,7 +61,7 @@ def check(m, q, expr, ref, want, typ, ctx, cls, datepart=None):
         exp_vals = sorted(v for v, _ in want)
         exp_tx = sorted(t for _, t in want)
     case = {'query': q, 'expr': expr, 'reference': ref.isoformat(), 'want': want, 'type': typ, 'cls': cls, 'datepart': datepart}
-    key = '%s|%s' % (q, ref.date().isoformat() if datepart else '')
+    key = '%s|%s|%s' % (culture, q, ref.date().isoformat() if datepart else '')
     lib.take_swallowed()
     try:
         r = m.parse(q, ref)
@@ -169,10 +169,23 @@ def gen(job, ctx):
 
 def plan(tier, seed):
     sh = {'hhmm': 5, 'hhmmss': 3, '12h': 3, 'composed': 2} if tier == 'quick' else {'hhmm': 4, 'hhmmss': 6, '12h': 4, 'composed': 2}
-    return [{'name': '%s%d' % (p, i), 'part': p, 'shard': i, 'shards': n} for p, n in sh.items() for i in range(n)]
+    jobs = [{'name': '%s%d' % (p, i), 'part': p, 'shard': i, 'shards': n} for p, n in sh.items() for i in range(n)]
+    # 24-hour HH:MM in the other cultures (the bare form is culture independent)
+    jobs += [{'name': 'hhmm-' + cu, 'part': 'hhmm-culture', 'culture': cu, 'shard': 0, 'shards': 1} for cu in dtlib.DT_CULTURES if cu != 'en-us']
+    return jobs
 
 
 def run(job, ctx):
+    if job['part'] == 'hhmm-culture':
+        cu = job['culture']
+        m = dtlib.dt_model(cu)
+        r = ctx.rng('c07:' + cu)
+        refs = dtlib.refs(r, 10)
+        for h in range(24):
+            for mi in (range(60) if ctx.tier == 'thorough' else sorted({0, 30, 59, r.randrange(60), r.randrange(60)})):
+                s = '%02d:%02d' % (h, mi)
+                check(m, s, s, r.choice(refs), readings(h, mi, 0, None), 'time', ctx, 'HH:MM', None, culture=cu)
+        return
     m = dtlib.dt_model('en-us')
     for i, (q, expr, ref, want, typ, cls, datepart) in enumerate(gen(job, ctx)):
         if i % job['shards'] == job['shard']:
@@ -181,5 +194,6 @@ def run(job, ctx):
 
 def replay_case(fail, ctx):
     c = fail['case']
-    m = dtlib.dt_model('en-us')
-    check(m, c['query'], c['expr'], dt.datetime.fromisoformat(c['reference']), [tuple(x) for x in c['want']], c['type'], ctx, c['cls'], c.get('datepart'))
+    cu = fail.get('where', {}).get('culture', 'en-us')
+    m = dtlib.dt_model(cu)
+    check(m, c['query'], c['expr'], dt.datetime.fromisoformat(c['reference']), [tuple(x) for x in c['want']], c['type'], ctx, c['cls'], c.get('datepart'), culture=cu)
